@@ -66,3 +66,15 @@ Theorem C02_shutdown_terminates : forall n kind max_attempts qmax with_web tr s 
   dist kind i (bp s' i) < dist kind i (bp s i).
 Proof. exact shutdown_decreases. Qed.
 Print Assumptions C02_shutdown_terminates.
+
+(* ... and so does the control thread: once a shutdown has lowered the loop flag, every own operation of the control
+   thread (the rest of the tick, the finally-shutdown, each join - enabled as soon as that thread has exited -, the
+   final save, the return of launch()) brings it strictly closer to its end; only the marks that components emit
+   while the final state is written do not count.  With C02_shutdown_terminates this bounds the number of operations
+   between the shutdown request and the return of launch() (user callbacks are assumed to return). *)
+Theorem C02_control_thread_winds_down : forall n kind max_attempts qmax with_web tr s l s',
+  run n kind max_attempts qmax with_web init tr = Some s -> running s = false ->
+  ctl_step n kind max_attempts with_web s l = Some s' -> l <> LOther ->
+  cdist n (cp s') < cdist n (cp s).
+Proof. exact control_thread_winds_down. Qed.
+Print Assumptions C02_control_thread_winds_down.
